@@ -11,6 +11,8 @@
 // plays the part of Go's index-out-of-range panic when arguments are missing).
 // A fatal signal (SIGSEGV, SIGFPE, SIGABRT, ...) inside the port flushes the
 // lines produced so far, prints CRASH for the current line and exits 3.
+// errno is cleared before every line (see main) so that a line's result does
+// not depend on the lines before it.
 //
 // Mapping of the Go API onto the port:
 //   PadStyle n            0 -> PadStyleHash1, 1 -> PadStyleHash4, other ->
@@ -546,7 +548,16 @@ static void onFatal(int) {
     _exit(3);
 }
 
-int main() {
+#ifndef VERIF_REPO_PATH
+#define VERIF_REPO_PATH "?"
+#endif
+
+int main(int argc, char **argv) {
+    if (argc > 1 && strcmp(argv[1], "--repo") == 0) {
+        // the tree this binary was built from (used by build.sh)
+        puts(VERIF_REPO_PATH);
+        return 0;
+    }
     const char *r = getenv("VERIF_ROOT");
     if (r != NULL) g_root = r;
     if (!g_root.empty()) {
@@ -554,8 +565,23 @@ int main() {
         writeEmpty(joinPath(joinPath(g_root, "targets"), "file"));
         if (chdir(g_root.c_str()) != 0) {}
     }
+    // the handler runs on its own stack so that a stack overflow (deep
+    // std::regex recursion on a long input) is reported too
+    static char altstack[1 << 16];
+    stack_t ss;
+    ss.ss_sp = altstack;
+    ss.ss_size = sizeof(altstack);
+    ss.ss_flags = 0;
+    sigaltstack(&ss, NULL);
     const int sigs[] = {SIGSEGV, SIGBUS, SIGFPE, SIGILL, SIGABRT};
-    for (size_t i = 0; i < sizeof(sigs) / sizeof(sigs[0]); ++i) signal(sigs[i], onFatal);
+    for (size_t i = 0; i < sizeof(sigs) / sizeof(sigs[0]); ++i) {
+        struct sigaction sa;
+        memset(&sa, 0, sizeof(sa));
+        sa.sa_handler = onFatal;
+        sa.sa_flags = SA_ONSTACK;
+        sigemptyset(&sa.sa_mask);
+        sigaction(sigs[i], &sa, NULL);
+    }
 
     std::ios::sync_with_stdio(false);
     std::string line;
@@ -564,6 +590,12 @@ int main() {
         Args args;
         args.reserve(f.size());
         for (size_t i = 1; i < f.size(); ++i) args.push_back(unhex(f[i]));
+        // Lines must not depend on each other: the port tests errno without
+        // clearing it first (FileSequence::frame(string)), and libstdc++'s
+        // std::stol leaves ERANGE behind, so one overflowing number would
+        // change the result of every later line.  Within a line the stale
+        // value is left alone.
+        errno = 0;
         g_out += safeDispatch(f[0], args);
         g_out.push_back('\n');
         if (g_out.size() > (1u << 16)) flushOut();
